@@ -102,10 +102,17 @@ func (n *MixedValueNode) ASTNode() (schema.ASTNode, error) {
 	an := astNodeFromNode(n)
 
 	an.SchemaType = n.schemaType
+	an.Value = n.value
 	if strings.ContainsRune(n.value, '|') {
 		an.SchemaType = json.TypeMixed.String()
+		// The blanks around `|` are presentation: `@a|@b` and `@a | @b` are the
+		// same choice and get the same value.
+		names := strings.Split(n.value, "|")
+		for i := range names {
+			names[i] = strings.TrimSpace(names[i])
+		}
+		an.Value = strings.Join(names, " | ")
 	}
-	an.Value = n.value
 	return an, nil
 }
 
